@@ -74,7 +74,7 @@ def measures(st, snap, cur, loopkey=None):
             ng = c[2].a.single()
             nz = st.kb.get(ng[0], (0, 0))[0] if ng and ng[1] == 1 and c[2].a.c == 0 else 0
             newc = 0xffff & ~nz      # bits possibly set
-        for bit in (1, 2, 4, 8):
+        for bit in [1 << i_ for i_ in range(16)]:
             if (ones & bit) and not (newc & bit):
                 out[('bitclear', 'state-flags', bit)] = 'strict'
     return out
